@@ -5,6 +5,7 @@ cd "$(dirname "$0")"
 export CARGO_NET_OFFLINE=true
 export CARGO_TARGET_DIR="$(pwd)/.cache/target"
 REPO="${VERIF_REPO:-$(cd .. && pwd)/repo}"
+[ -d "$REPO" ] || REPO=/repo
 mkdir -p .cache
 if [ -d extract ]; then (cd extract && cargo build --release --quiet 2>&1 | tail -5) ; fi
 if [ -x .cache/target/release/tvextract ]; then .cache/target/release/tvextract "$REPO" lean/TaffyVerif/Generated || true; fi
